@@ -279,7 +279,9 @@ StringDictionary *StringDictionaryHASHRPF::load(std::istream &in,
     return NULL;
 
   StringDictionaryHASHRPF *dict = new StringDictionaryHASHRPF();
-  dict->type = technique;
+  // The hash technique only selects the in-memory hash representation: the
+  // dictionary keeps its own type (save() writes it as the image tag)
+  dict->type = HASHRPF;
   dict->elements = loadValue<uint64_t>(in);
   dict->maxlength = loadValue<uint32_t>(in);
 
